@@ -143,6 +143,10 @@ def run_ops(pexpect, ign_hup, ign_int, stopped, ops):
                 elif o[0] == 'close':
                     w.sp.close(force=o[1])
                     r = [2]
+                elif o[0] == 'drop':
+                    # the last reference goes away: pexpect.spawn has no finaliser, PtyProcess has (its close(), errors swallowed)
+                    w.pt.__del__()
+                    r = [2]
                 elif o[0] == 'io':
                     # any I/O call on an object whose close() has been called: it must fail with an error (not return, not EOF/TIMEOUT)
                     fn = {0: lambda: w.sp.read_nonblocking(1, 0), 1: lambda: w.sp.send(b'x'), 2: lambda: w.sp.expect_exact([b'x', pexpect.EOF, pexpect.TIMEOUT], timeout=0),
@@ -196,6 +200,8 @@ def gen_ops(rng, n):
             ops.append(('env', ('exit', rng.choice([0, 1, 2, 5, 127, 255]))))
         else:
             ops.append(('env', ('sig', rng.choice([1, 2, 9, 11, 15, 35, 64]))))
+    if rng.random() < 0.3:
+        ops.append(('drop',))          # the end of the object's life
     return ops
 
 
@@ -214,6 +220,8 @@ def coq_ops(ops):
             out.append('(OClose %s)' % cbool(o[1]))
         elif o[0] == 'io':
             out.append('OIo')
+        elif o[0] == 'drop':
+            out.append('ODrop')
         else:
             out.append('(OEnv (%s %s))' % ('EExit' if o[1][0] == 'exit' else 'ESignalled', cZ(o[1][1])))
     return clist(out)
